@@ -23,6 +23,7 @@ ObsCur(o) == IF o.tomb THEN [off |-> 0, ne |-> 0, nx |-> o.next, tomb |-> TRUE]
 \* a tombstone's offset_next is not observable through the API: compare the flag only
 SameCur(a, b) == IF a.tomb \/ b.tomb THEN a.tomb = b.tomb ELSE a = b
 
+OpName(sub) == CASE sub = "set_raw_name" -> "set" [] sub = "delete" -> "del" [] sub = "uncompress" -> "unc" [] OTHER -> sub
 \* "" (agrees), "-" (not predicted), or the first difference
 SubDiff(st, sec, incl, u) ==
   IF u.res = "panic" THEN "-"
@@ -56,6 +57,9 @@ SubDiff(st, sec, incl, u) ==
        ELSE IF pr.p # u.bytes THEN u.s \o ": bytes differ from the transcription"
        ELSE IF pr.v # ObsView(u.view) THEN u.s \o ": bookkeeping differs from the transcription"
        ELSE IF ~SameCur(pr.c, ObsCur(u.obs)) THEN u.s \o ": cursor differs from the transcription"
+       ELSE IF u.s \in {"set_raw_name", "delete", "uncompress"}
+               /\ CacheFilledAfter(OpName(u.s), pr.ok, st.cf, st.v.mc, QD(st.p) = 1) # (u.view.cached # <<>>)
+            THEN u.s \o ": the question cache is " \o (IF u.view.cached # <<>> THEN "kept" ELSE "reset") \o ", the transcription says otherwise"
        ELSE ""
 
 RECURSIVE Fold(_, _, _, _, _, _)
@@ -66,7 +70,7 @@ Fold(subs, k, st, sec, incl, n) ==
        IF u.res = "panic" THEN <<n, "">>
        ELSE IF u.res = "end" THEN (LET d == SubDiff(st, sec, incl, u) IN IF d \in {"", "-"} THEN <<IF d = "" THEN n + 1 ELSE n, "">> ELSE <<n, d>>)
        ELSE LET d == SubDiff(st, sec, incl, u)
-                nxt == [p |-> u.bytes, v |-> ObsView(u.view), c |-> ObsCur(u.obs)] IN
+                nxt == [p |-> u.bytes, v |-> ObsView(u.view), c |-> ObsCur(u.obs), cf |-> u.view.cached # <<>>] IN
             IF d \notin {"", "-"} THEN <<n, d>>
             ELSE IF Len(u.bytes) < 12 THEN <<n, "">>
             ELSE Fold(subs, k + 1, nxt, sec, incl, IF d = "" THEN n + 1 ELSE n)
@@ -78,7 +82,7 @@ StepDiff(e) ==
   IF o.op = "cursor" THEN
        IF ~e.has_first THEN <<0, "">>
        ELSE LET v0 == [ViewMC(e.pre, e.mc0) EXCEPT !.mc = e.mc0] IN
-            Fold(e.subs, 1, [p |-> e.pre, v |-> v0, c |-> ObsCur(e.first)], o.sec, o.incl, 0)
+            Fold(e.subs, 1, [p |-> e.pre, v |-> v0, c |-> ObsCur(e.first), cf |-> e.cached0], o.sec, o.incl, 0)
   ELSE IF o.op \in {"insert", "insert_q"} THEN
        IF e.mc0 /\ ~PolicyOK(e.pre) THEN <<0, "">>
        ELSE IF o.op = "insert" /\ o.rec.bad THEN <<0, "">>
@@ -93,6 +97,7 @@ StepDiff(e) ==
             IF pr.ok # (e.res = "ok") THEN <<0, "rename: the transcription " \o (IF pr.ok THEN "succeeds" ELSE "fails") \o ", the object reports " \o e.res \o " " \o e.e>>
             ELSE IF pr.p # e.post THEN <<0, "rename: bytes differ from the transcription">>
             ELSE IF pr.ok /\ pr.v # ObsView(e.view) THEN <<0, "rename: bookkeeping differs from the transcription">>
+            ELSE IF CacheFilledAfter("ren", pr.ok, e.cached0, e.mc0, TRUE) # (e.view.cached # <<>>) THEN <<0, "rename: the question cache is not what the transcription says">>
             ELSE <<1, "">>
   ELSE IF o.op = "recompute" THEN
        IF e.mc0 /\ ~PolicyOK(e.pre) THEN <<0, "">>
@@ -100,6 +105,7 @@ StepDiff(e) ==
             IF e.res # "ok" THEN <<0, "recompute: the transcription succeeds, the object reports " \o e.res \o " " \o e.e>>
             ELSE IF q # e.post THEN <<0, "recompute: bytes differ from the transcription">>
             ELSE IF ViewMC(q, FALSE) # ObsView(e.view) THEN <<0, "recompute: bookkeeping differs from the transcription">>
+            ELSE IF CacheFilledAfter("recompute", TRUE, e.cached0, e.mc0, TRUE) # (e.view.cached # <<>>) THEN <<0, "recompute: the question cache is not what the transcription says">>
             ELSE <<1, "">>
   ELSE <<0, "">>
 
